@@ -98,12 +98,33 @@ def run(ctx):
                           {"case": c, "result": r})
         if r.get("note"):
             ctx.oblige(f"run:{c['name']}", False, r["note"][:200])
+    # a reader that writes into a file another reader has just finalised as failed (two streams carry chunks of one file, one frame is
+    # damaged while the other reader is in the middle of its payload): whatever that late write does, the metadata on disk must not
+    # claim bytes that are not in the file - also not the chunks written before the failure
+    lcases = []
+    for n in ((4, 7) if ctx.tier == "quick" else (3, 4, 7, 12)):
+        for late in sorted({n - 1, 1}):
+            for kind in ("crc", "range", "cut"):
+                first = [i for i in range(n) if i != late][: n - 2]
+                bad = [i for i in range(n) if i != late and i not in first][0]
+                lcases.append({"mode": "latewriter", "name": f"late-{n}c-late{late}-{kind}", "chunks": n, "first": first, "late": late, "bad": bad,
+                               "hold_ms": 150, "kind": kind})
+    rcl, lres = G.run_cases(ctx, exe, "latewriter", lcases, timeout=300)
+    ctx.oblige("harness:latewriter", rcl == 0 and len(lres) == len(lcases), ctx.harness_stderr[-300:])
+    late_marked = 0
+    for c, r in zip(lcases, lres):
+        late_marked += r.get("marked_chunks_checked", 0)
+        if r.get("note"):
+            ctx.oblige(f"run:{c['name']}", False, r["note"][:200])
+        if r.get("unsound"):
+            ctx.violation("C05:unsound-sidecar:late-writer", f"{c['name']}: after a reader wrote chunk {c['late']} into the file another reader had finalised as failed "
+                          f"({c['kind']}), the metadata on disk marks chunks that are not in the file (length {r.get('file_len')}): {r['unsound'][:3]}", {"case": c, "result": r})
     bigs = G2.big_cases(rng, ctx.tier == "thorough")
     rcb, bres = G2.run_xfer(ctx, exe, "big", bigs, timeout=600)
     ctx.oblige("harness:big", rcb == 0 and len(bres) == len(bigs), ctx.harness_stderr[-300:])
     nbig = G2.judge_big(ctx, "C05", bigs, bres)
     ctx.coverage.update({
-        "big_sparse_files_above_4GiB": nbig, "flush_storms": len(storms), "observed_transfers": len(ocases), "sidecar_observations_during_transfers": obs_n, "flush_storm_valid_observations": observations,
+        "big_sparse_files_above_4GiB": nbig, "late_writer_runs": len(lcases), "late_writer_marked_chunks_checked": late_marked, "flush_storms": len(storms), "observed_transfers": len(ocases), "sidecar_observations_during_transfers": obs_n, "flush_storm_valid_observations": observations,
         "evaluations": len(cases) + len(wl), "distinct_nontrivial": with_marks,
         "rule": "for each workload (fixed 3 + seeded), the real transfer over netsim runs in a child process that SIGKILLs itself at the k-th hit of each of 6 hook points "
                 "(before write, after write, after mark, between temp write and rename, after rename, before finalize) for every k (thorough) or a stride (quick), with and without "
